@@ -543,6 +543,43 @@ def run(ctx):
     # ------------------------------------------------------------------ R5.9 generated code and falsy values
     check_generated_value_tests(ctx, "R5.9")
 
+    # ------------------------------------------------------------------ R5.10 conversions are not memoised by equality of the raw input
+    ctx.rule("R5.10", "no function of the field-type modules stores into a module-level container or is memoised (lru_cache): a conversion cache is looked up by "
+                      "== / hash of the RAW input, and inputs of different kinds that compare equal (3232235777 and 3232235777.0, True and 1) would share one answer - "
+                      "a value the type rejects is accepted once an equal acceptable one has been seen")
+    n_ft = 0
+    for mname, mod in sorted(prog.modules.items()):
+        if not mname.startswith("flow.record.fieldtypes"):
+            continue
+        ctx.use(mod)
+        module_containers = {t.id for st in mod.tree.body if isinstance(st, (ast.Assign, ast.AnnAssign)) and isinstance(getattr(st, "value", None), (ast.Dict, ast.List, ast.Set, ast.Call))
+                             for t in (st.targets if isinstance(st, ast.Assign) else [st.target]) if isinstance(t, ast.Name)}
+        for fn in [n for n in ast.walk(mod.tree) if isinstance(n, (ast.FunctionDef, ast.AsyncFunctionDef))]:
+            n_ft += 1
+            local = {n.id for n in ast.walk(fn) if isinstance(n, ast.Name) and isinstance(n.ctx, ast.Store)} | set(func_params(fn))
+            decos = [norm(d.func) if isinstance(d, ast.Call) else norm(d) for d in fn.decorator_list]
+            memo = [d for d in decos if d.split(".")[-1] in ("lru_cache", "cache")]
+            ctx.check(not memo, "R5.10", f"{qualname_of(fn).replace('flow.record.', '')}:memoised", f"{fn.name} is memoised ({memo}): the cache is keyed by == of the raw arguments", fn,
+                      "not memoised", key=f"R5.10:{qualname_of(fn).replace('flow.record.', '')}:memoised")
+            for n in ast.walk(fn):
+                tgt = None
+                if isinstance(n, ast.Subscript) and isinstance(n.ctx, ast.Store) and isinstance(n.value, ast.Name):
+                    tgt = n.value.id
+                if isinstance(n, ast.Call) and isinstance(n.func, ast.Attribute) and n.func.attr in ("setdefault", "update", "append", "add") and isinstance(n.func.value, ast.Name):
+                    tgt = n.func.value.id
+                if tgt and tgt in func_params(fn):
+                    # a container parameter that is filled: which module-level containers do the call sites hand in?
+                    pos = func_params(fn).index(tgt)
+                    for c0 in calls_in(mod.tree, nested=True):
+                        if isinstance(c0.func, ast.Name) and c0.func.id == fn.name and len(c0.args) > pos and isinstance(c0.args[pos], ast.Name) and c0.args[pos].id in module_containers:
+                            ctx.fail("R5.10", f"{qualname_of(fn).replace('flow.record.', '')}:module-state:{c0.args[pos].id}", f"`{norm(n)[:60]}` fills the container passed as `{tgt}`, and "
+                                     f"`{norm(c0)[:60]}` passes the module-level {c0.args[pos].id}: a cache of converted values answers for every raw input that compares equal to one it has seen", n,
+                                     key=f"R5.10:{mname.replace('flow.record.', '')}:{c0.args[pos].id}:conversion-cache")
+                if tgt and tgt not in local and tgt in module_containers:
+                    ctx.fail("R5.10", f"{qualname_of(fn).replace('flow.record.', '')}:module-state:{tgt}", f"`{norm(n)[:60]}` stores into the module-level container {tgt}: a cache of converted "
+                             "values answers for every raw input that compares equal to one it has seen", n, key=f"R5.10:{mname.replace('flow.record.', '')}:{tgt}:conversion-cache")
+    ctx.floor("R5.10", "functions of the field-type modules examined", n_ft, 100)
+
 
 
 def check_naive_utc(ctx, rule):
